@@ -300,6 +300,26 @@ func buildVSIXFrom(env *Env, v Variant, label string, in []byte, flipOnly []stri
 			a.Semantic = append(a.Semantic, SemMut{Class: "swap-digests", Site: "manifest:first-two-references", Data: replaceSig(nx), Assert: true, Why: "the signed Manifest changed and no longer matches the parts"})
 		}
 	}
+	// namespace re-binding on every element of the signature document (xmlnsrebind.go)
+	if root, err := xParse(vi.sigXML); err == nil {
+		protectedAt := func(path []string) bool {
+			mode := xUnclassified
+			for i := range path {
+				if m := vsixDecide(path[:i+1]); m != xInherit {
+					mode = m
+				}
+			}
+			return mode == xProtected
+		}
+		w, cnt := xmlNsRebind(string(vi.sigXML), root, protectedAt)
+		for i := range w {
+			w[i].Data = replaceSig(w[i].Data)
+		}
+		a.Semantic = append(a.Semantic, w...)
+		a.Notes = append(a.Notes, fmt.Sprintf("namespace re-binding: %d elements, %d cases, %d asserted", cnt.Elements, cnt.Cases, cnt.Asserted))
+	} else {
+		semSkipped = append(semSkipped, a.ID()+": namespace re-binding: "+err.Error())
+	}
 	// graft the sibling's signature document
 	if sv, err := vsixInspect(sib); err == nil {
 		a.Semantic = append(a.Semantic, SemMut{Class: "graft-sibling-signature", Site: "signature-part", Data: replaceSig(sv.sigXML), Assert: true, Why: "the sibling's Manifest carries the digest of a different catalog.json"})
